@@ -168,6 +168,24 @@ Proof.
       * rewrite negb_true_iff, Z.eqb_neq. reflexivity.
 Qed.
 
-(* the model itself satisfies the observer on every sequence (so a case with
-   mismatch = false and holdsb = false cannot exist for a faithful harness) *)
+(* the model's own observation of a call satisfies the observer, in every file
+   system: a case with mismatch = false cannot fail [Call_holds] at a call *)
+Lemma model_call_holds s api p ob :
+  model_obs s (OpExec api p) = Some ob -> Call_holds ob.
+Proof.
+  cbn [model_obs]. intros H. inversion H as [E]. clear H E.
+  destruct (exec_call s p) as [f u g m|e| |] eqn:X.
+  - apply exec_call_ran in X. destruct X as [R [A _]].
+    assert (S : stat_of s p = Some (u, g, m)).
+    { unfold stat_of. unfold eval_symlinks in R.
+      rewrite (follow_mono _ _ _ _ _ _ _ R 300%nat) by (unfold go_maxlinks; lia). reflexivity. }
+    assert (SA : stat_allowed (mkObs (stat_of s p) (Some f) 0 0)).
+    { exists u, g, m. cbn [ob_stat]. auto. }
+    split; [intros _; exact SA|intros N; contradiction].
+  - split; cbn [ob_ran ob_res]; [congruence|auto].
+  - split; cbn [ob_ran ob_res]; [congruence|auto].
+  - exfalso. eapply exec_call_never_panics. exact X.
+Qed.
+
+(* no recorded finding for this property: every failing case is a violation *)
 Definition finding_code (c : case) : Z := 0.
